@@ -27,6 +27,7 @@ type World struct {
 	Axioms    []*spec.Axiom
 	Lemmas    []*spec.Lemma
 	Events    []*spec.EventDecl
+	Reps      []*spec.Represents
 	funcByKey map[string]*ssa.Function
 	allFuncs  []*ssa.Function
 	immutable map[*ssa.Global]bool
@@ -223,6 +224,7 @@ func NewWorld(prog *load.Program, specDir string) (*World, error) {
 			w.Ghosts[g.Recv+"."+g.Name] = g
 			w.Ghosts[g.Name] = g
 		}
+		w.Reps = append(w.Reps, f.Reps...)
 		w.Axioms = append(w.Axioms, f.Axioms...)
 		w.Lemmas = append(w.Lemmas, f.Lemmas...)
 		w.Events = append(w.Events, f.Events...)
